@@ -145,6 +145,9 @@ func RunCheck(id string, opt Options) int {
 					use = true
 				}
 			}
+			if e.usedLemmas[l.Name] {
+				use = true // a lemma assumed by a verified function is proved in the same run
+			}
 			if !use {
 				continue
 			}
